@@ -6,6 +6,8 @@ Every instance carries `v`, a unique id, so a probe identifies the supplier it o
               ValueError / ExceptionGroup instead of TypeError)
   SubD1       subclass of D1: supplying SubD1 must not satisfy a D1 lookup and vice versa
   Box[int], Box[str]  two specialisations of one generic (required attribute)
+Some of the types define dunder methods of their own (iteration over values / over states, a false truth value, a zero length):
+legal for user states, and none of the library's business when it stores and looks them up.
 """
 import hv  # noqa: F401
 from typing import Literal
@@ -18,17 +20,39 @@ class D1(State):
 
 
 class D2(State):
+    """also iterable (over its plain values): a state is free to define dunder methods of its own"""
+
     v: int = 0
     w: str = "d2"
 
+    def __iter__(self):
+        return iter((self.v, self.w))
+
+    def __eq__(self, other: object) -> bool:
+        # a tolerant equality of its own: every D2 equals every other D2 (the unique `v` still tells instances apart)
+        return isinstance(other, D2)
+
+    def __hash__(self) -> int:
+        return 2
+
 
 class R1(State):
+    """its truth value is False"""
+
     v: int
+
+    def __bool__(self) -> bool:
+        return False
 
 
 class R2(State):
+    """iterable over *states* (a team iterating its members): supplying an R2 supplies nothing but the R2"""
+
     v: int
     w: str = "r2"
+
+    def __iter__(self):
+        return iter((R1(v=-self.v - 1), D1(v=-self.v - 1)))
 
 
 class R3(State):
@@ -45,9 +69,20 @@ class R4(State):
     first: int | None
     v: int = 0
 
+    def __eq__(self, other: object) -> bool:
+        return type(other) is R4  # equal whatever `v` is
+
+    def __hash__(self) -> int:
+        return 4
+
 
 class SubD1(D1):
+    """has a length of its own (0: falsy)"""
+
     extra: int = 0
+
+    def __len__(self) -> int:
+        return 0
 
 
 class Box[T](State):
